@@ -183,9 +183,13 @@ func (c *capture) WithGroup(string) slog.Handler      { return c }
 // kinds of a sample: deviation of the c->s and s->c legs from nominal (10 ms each way, offset 3 ms)
 var legDev = []time.Duration{0, 40 * time.Millisecond, -6 * time.Millisecond, 150 * time.Microsecond, -150 * time.Microsecond}
 
+// ntimedOff is the true clock offset of the history being run: small against the
+// one-way delay, or larger than it in either direction (as after a clock step).
+var ntimedOff = 3 * time.Millisecond
+
 func ntimedSample(i, kind, nleg int) (t0, t1, t2, t3 time.Time) {
 	a, b := legDev[kind/nleg], legDev[kind%nleg]
-	const off = 3 * time.Millisecond
+	off := ntimedOff
 	fwd := 10*time.Millisecond + a
 	bwd := 10*time.Millisecond + b
 	t0 = base.Add(time.Duration(i) * time.Second)
@@ -278,9 +282,13 @@ func ntimed(r *mc.Run) {
 			rec1(k+1, l)
 		}
 	}
-	for l := 1; l <= l1; l++ {
-		rec1(0, l)
+	for _, off := range []time.Duration{3 * time.Millisecond, 50 * time.Millisecond, -50 * time.Millisecond} {
+		ntimedOff = off
+		for l := 1; l <= l1; l++ {
+			rec1(0, l)
+		}
 	}
+	ntimedOff = 3 * time.Millisecond
 	// long histories without reset: (a)/(b) beyond the fourth sample
 	long := mc.Pick(r, 6, 7)
 	h := make([]int, long)
@@ -323,6 +331,6 @@ func TestCheck(t *testing.T) {
 		r.Extra["n_states"] = r.Distinct
 		r.Sample(luckyIn{3, 2, []int{0, 2, 1, 0, 2}, []int{3, 0, 4, 1, 2}, 2})
 		r.Sample(ntIn{[]int{1, 0, 4}, []int{0, 0, 2, 0}, "epoch"})
-		r.Extra["rule"] = "lucky packet: capacities 1..3 (4), pick 1..cap+1, histories of cap+2 samples over 3 offsets x all delay-rank permutations x reset at every position (or none), plus histories of 2*cap+2 samples for cap 1 and 2 (3 thorough) so that more than cap samples lie on both sides of a reset, compared with the reference model after every sample; Ntimed: all H1 (<=3 (4) samples) x H2 (4 samples) over 9 (16) sample kinds x {explicit reset, epoch change} against a fresh filter on H2, plus all histories of 6 (7) samples for the raw-output rules; distinct = distinct histories"
+		r.Extra["rule"] = "lucky packet: capacities 1..3 (4), pick 1..cap+1, histories of cap+2 samples over 3 offsets x all delay-rank permutations x reset at every position (or none), plus histories of 2*cap+2 samples for cap 1 and 2 (3 thorough) so that more than cap samples lie on both sides of a reset, compared with the reference model after every sample; Ntimed: all H1 (<=3 (4) samples) x H2 (4 samples) over 9 (16) sample kinds x 3 true offsets (small / larger than the one-way delay, both signs) x {explicit reset, epoch change} against a fresh filter on H2, plus all histories of 6 (7) samples for the raw-output rules; distinct = distinct histories"
 	})
 }
